@@ -401,7 +401,13 @@ func mutate(t *rapid.T, m *mnode) string {
 		if i < 0 {
 			return ""
 		}
-		switch rapid.IntRange(0, 4).Draw(t, "rc") {
+		switch rapid.IntRange(0, 5).Draw(t, "rc") {
+		case 5: // a well-formed but EMPTY shard of the parent's fanout (no writer leaves one behind, any block store may hold one)
+			fan := uint64(8)
+			if m.UFS != nil && m.UFS.Fanout != nil && *m.UFS.Fanout >= 8 && *m.UFS.Fanout <= 1024 {
+				fan = *m.UFS.Fanout
+			}
+			m.Links[i].Child, m.Links[i].Missing = &mnode{HasData: true, UFS: hamtFields(fan, nil)}, false
 		case 3: // loads fine but is not UnixFS: no links, undecodable Data
 			m.Links[i].Child, m.Links[i].Missing = &mnode{HasData: true, Garbage: []byte{0xff, 0xff, 0x01}}, false
 		case 4: // loads fine, no Data at all
